@@ -8,14 +8,16 @@ META = {
     "technique": "Coq proof (std++ gmap/gset model of Layer and LayerContents; invariant preserved by every operation, "
                  "hence by induction over ALL operation histories; error => unchanged; save+load exact) + differential "
                  "run of exhaustive and random histories against the implementation",
-    "text": "Kernel-checked over a Gallina model of Layer / LayerContents and the layer part of Font::save / Font::load: "
-            "the invariant (layer names unique, exactly one default layer, first, in 'glyphs', only it may be called "
-            "public.default, glyph map / file-name index / taken-set in step, file names and directories distinct "
-            "ignoring case) holds initially, after loading a well-formed tree, and is preserved by every operation "
-            "except raw Layer::entry access (refuted by witness); an operation that reports an error leaves the state "
-            "unchanged; saving and loading a state that satisfies the invariant reproduces exactly its layers and glyphs. "
-            "The model is tied to the code on every run: tries of all operation sequences up to length 4 over small "
-            "alphabets plus random histories, comparing outcome and full getter-visible state after every operation.",
+    "text": "Kernel-checked over a Gallina model of Layer / LayerContents and the layer part of Font::save / Font::load "
+            "(including the uniqueness / plain-name checks at load): the invariant (layer names unique, exactly one default "
+            "layer, first, in 'glyphs', only it may be called public.default, glyph map / file-name index / taken-set in step, "
+            "file names and directories distinct ignoring case, names valid) holds initially, after loading a tree without "
+            "case-insensitive clashes, and is preserved by every operation except raw Layer::entry access (refuted by witness), "
+            "hence after every history; an operation that reports an error leaves the state unchanged; saving and loading a "
+            "consistent font succeeds and reproduces exactly its layers and glyphs; the only reachable panics are the documented "
+            "99-tries panic and Glyph::new on an invalid name. The model is tied to the code on every run: tries of all "
+            "operation sequences up to length 4 over small alphabets plus random histories, comparing outcome and full "
+            "getter-visible state after every operation, and which start trees Font::load accepts.",
     "note": "Trusted: Coq kernel + VM; the hand-written model of src/layer.rs (tied by the differential run, not by proof); "
             "file-system behaviour of create_dir / plist reading; DataRequest filters are not modelled (C17).",
 }
@@ -75,6 +77,11 @@ def run_containers(ctx, known, built, prop, light=False, tags=("C06:", "C07:")):
         else:
             cmd = "Eval vm_compute in run_histories up low names %s." % lit(text)
         jobs.append((sh_["weight"], sh_, cmd))
+    # which start trees load at all: the model's load against Font::load
+    starts = summ.get("starts", [])
+    if starts:
+        jobs.append((3000, {"id": "starts", "kind": "starts", "starts": starts},
+                     "Eval vm_compute in map (loads low names) [%s]." % ";".join(one(st["start"]) for st in starts)))
     jobs.sort(key=lambda j: -j[0])
     nfiles = max(1, min(len(jobs), 32))
     bins = [[0, []] for _ in range(nfiles)]
@@ -109,6 +116,13 @@ def run_containers(ctx, known, built, prop, light=False, tags=("C06:", "C07:")):
         nok += 1
         for sh_, v in zip(files[vf], vals):
             diffs = parse_term(v)
+            if sh_["kind"] == "starts":
+                for st, m in zip(sh_["starts"], diffs):
+                    if (m == "true") != bool(st["loads"]):
+                        ctx.disagreements.append({"what": "model and Font::load differ on whether this tree loads",
+                                                  "start": st["start"], "ops": "", "model_loads": m == "true",
+                                                  "implementation_loads": st["loads"]})
+                continue
             if not diffs:
                 continue
             if sh_["kind"] == "trie":
